@@ -3,7 +3,7 @@ import ast
 
 from . import rule, info
 from ..program import AnalysisError, src, norm, ClassInfo
-from ..util import (handler_body_nodes, polarity, dispatch_chain, choice_leaves, search_loop_rejects, is_name, calls_in, callee_qual, deref, ancestors, evaluator_calls, stmt_of, parent,
+from ..util import (exclusive, handler_body_nodes, polarity, dispatch_chain, choice_leaves, search_loop_rejects, is_name, calls_in, callee_qual, deref, ancestors, evaluator_calls, stmt_of, parent,
                     handler_outcomes, completes_normally, enclosing_trys, handler_covers, in_handler_of)
 from .common import option_usage, raise_discipline
 from ..pattern import match, matches
@@ -155,11 +155,18 @@ def match_default(ctx):
         ctx.ob(set(out) in ({'raise-bare', 'normal'}, {'raise-bare', 'return'}), u,
                'without a default the rejection propagates unchanged', 'outcomes %s' % sorted(out))
         for r in [s for s in ast.walk(h.ast) if isinstance(s, ast.Raise)]:
-            g = [a for a in ancestors(r) if isinstance(a, ast.If)]
-            ok = bool(g) and isinstance(g[0].test, ast.Compare) and isinstance(g[0].test.ops[0], ast.Is) \
-                and isinstance(g[0].test.left, ast.Attribute) and g[0].test.left.attr == 'default' \
-                and p.global_qualname(u, g[0].test.comparators[0]) == 'matching._MISSING' and r in g[0].body
-            ctx.ob(ok, u, 're-raise exactly when no default was given: %s' % (norm(g[0].test) if g else None), node=r)
+            # on the edge where ``self.default is _MISSING`` holds -- however the test is written
+            rn = cfg.node_of(r)
+            ok = False
+            shown = None
+            for t in cfg.nodes:
+                if t.kind == 'test':
+                    pol = polarity(t.ast, '%s.default is _MISSING' % u.params[0])
+                    if pol:
+                        shown = norm(t.ast)
+                        if rn in exclusive(cfg, t, pol):
+                            ok = True
+            ctx.ob(ok, u, 're-raise exactly when no default was given: %s' % shown, node=r)
         avs = [c for c in ast.walk(h.ast) if isinstance(c, ast.Call) and callee_qual(p, u, c) == 'core.arg_val']
         ok = len(avs) == 1 and is_name(avs[0].args[0], u.params[1]) and isinstance(avs[0].args[1], ast.Attribute) \
             and avs[0].args[1].attr == 'default' and is_name(avs[0].args[2], u.params[2])
@@ -407,3 +414,53 @@ def regex_target_types(ctx):
     ctx.ob(ok, 'glom/matching.py', 'both text types are valid Regex targets: %s' % sorted(have),
            '' if ok else 'a %s target is rejected before the pattern is tried' % sorted({'str', 'bytes'} - have))
     ctx.floor(2)
+
+
+@rule('C09.18')
+def precedence_classes(ctx):
+    """dict-pattern keys are tried constants first, then spec objects, then classes, and a key is
+    *required* exactly when it is a constant.  "Is a class" is ``isinstance(key, type)``: classes
+    with a metaclass (every ABC, every Enum) are classes too; an exact ``type(key) is type`` test
+    would file them as constants -- required keys compared with ``==``"""
+    u = ctx.unit('matching._precedence')
+    cfg = ctx.cfg(u)
+    prm = u.params[0]
+    rets = {}
+    for n in cfg.nodes:
+        if n.kind == 'stmt' and isinstance(n.ast, ast.Return) and isinstance(n.ast.value, ast.Constant):
+            rets.setdefault(n.ast.value.value, []).append(n)
+        elif n.kind == 'stmt' and isinstance(n.ast, ast.Return) and is_name(n.ast.value):
+            # single-exit form: the places where the returned variable gets its constant
+            for dn, dv in cfg.reaching_defs(n, n.ast.value.id):
+                if isinstance(dv, ast.Constant):
+                    rets.setdefault(dv.value, []).append(dn)
+    ctx.ob(set(rets) >= {0, 1, 2}, u, 'three classes of keys: %s' % sorted(rets))
+
+    # the key under test: the parameter, or a local unwrapped from it (``key = match.key if ..``)
+    keyvars = {prm}
+    for n in u.own_nodes():
+        if isinstance(n, ast.Assign) and is_name(n.targets[0]) and any(is_name(x, prm) for x in ast.walk(n.value)):
+            keyvars.add(n.targets[0].id)
+
+    def guarded(nodes, template):
+        for n in nodes:
+            ok = False
+            for t in cfg.nodes:
+                if t.kind == 'test':
+                    for kv in keyvars:
+                        pol = polarity(t.ast, template.replace('@K', kv))
+                        if pol and n in exclusive(cfg, t, pol):
+                            ok = True
+            if not ok:
+                return False
+        return bool(nodes)
+    prm = '@K'
+    ok = guarded(rets.get(2, []), 'isinstance(%s, type)' % prm)
+    ctx.ob(ok, u, 'a key is a class when isinstance(key, type)',
+           '' if ok else 'classes are not recognised by isinstance: a class with a metaclass (ABC, Enum) is taken for a constant')
+    ok = guarded(rets.get(1, []), "hasattr(%s, 'glomit')" % prm)
+    ctx.ob(ok, u, 'a key is a spec object when it has a glomit')
+    exact = [norm(x) for x in u.own_nodes() if isinstance(x, ast.Compare) and isinstance(x.ops[0], (ast.Is, ast.IsNot, ast.Eq))
+             and is_name(x.comparators[0], 'type')]
+    ctx.ob(not exact, u, 'no exact-type test stands in for "is a class"', '' if not exact else str(exact))
+    ctx.floor(4)
